@@ -8,6 +8,14 @@
         → ok <hex country'> <hex code'> <k>   model of Identity.Normalize and the
                             "keeps the identifying digits" oracle on Go's output
         → undef             code outside the model's character domain
+    c <CC> <hex pattern>
+        → ok 1 . .          the national SPECIFICATION accepts the pattern as it stands
+        → ok 0 <singles> <pairs>   otherwise: the codes the specification accepts among the
+                            pattern with one position replaced by a character of [0-9A-Z]
+                            (singles) and the pattern with two adjacent positions replaced by
+                            digits (pairs): comma separated hex, "." for none, at most 400
+                            each.  This is how the harness obtains the control characters of
+                            a chosen number part from the spec.
 -/
 import GoblVerif.Model.TaxId
 import GoblVerif.Model.Normalize
@@ -46,8 +54,36 @@ def regimeOf (cc : String) : Option Regime :=
 
 def b (x : Bool) : String := if x then "1" else "0"
 
+def alnum : List Char := "0123456789ABCDEFGHIJKLMNOPQRSTUVWXYZ".toList
+def decDigits : List Char := "0123456789".toList
+
+/-- the pattern with one position replaced by a character of `[0-9A-Z]`, accepted by `valid` -/
+def singles (valid : Str → Bool) (s : Str) : List Str :=
+  (List.range s.length).flatMap fun i => alnum.filterMap fun c =>
+    let t := s.set i c
+    if t != s && valid t then some t else none
+
+/-- the pattern with two adjacent positions replaced by digits, both changed, accepted by `valid` -/
+def pairs (valid : Str → Bool) (s : Str) : List Str :=
+  (List.range (s.length - 1)).flatMap fun i => decDigits.flatMap fun a => decDigits.filterMap fun d =>
+    let t := (s.set i a).set (i + 1) d
+    if s[i]? != some a && s[i + 1]? != some d && valid t then some t else none
+
+def hexList (l : List Str) : String :=
+  if l.isEmpty then "." else ",".intercalate (l.map fun t => hexStr (String.ofList t))
+
 def handle (toks : List String) : String :=
   match toks with
+  | ["c", cc, h] =>
+    match regimeOf cc, unhexStr h with
+    | some r, some str =>
+      let s := str.toList
+      let valid := fun t => r.format t && r.check t
+      -- a pattern the specification accepts as it stands is complete: nothing to search for
+      if valid s then "ok 1 . ." else
+      s!"ok 0 {hexList ((singles valid s).take 400)} {hexList ((pairs valid s).take 400)}"
+    | none, _ => "bad-regime"
+    | _, none => "undef"
   | ["v", cc, h] =>
     match regimeOf cc, unhexStr h with
     | some r, some str =>
